@@ -53,8 +53,8 @@ LENGTHS = {'circle': ('radius',), 'ellipse': ('width', 'height'), 'rectangle': (
            'rectangle_annulus': ('inner_width', 'outer_width', 'inner_height', 'outer_height')}
 
 
-def region_with_angle_unit(B, kind, unit):
-    r = sky_region(B, kind, 'r', 'icrs', simple=True)
+def region_with_angle_unit(B, kind, unit, frame='icrs'):
+    r = sky_region(B, kind, 'r', frame, simple=True)
     if hasattr(r, 'angle'):
         r.__dict__['angle'] = B.quantity('r.angle', unit)
     return r
@@ -70,9 +70,12 @@ def lengths_ok(kind, self, s, result):
 @contract('regions/core/core.py::SkyRegion.to_pixel', props=['C07'])
 class sky_region_pixel_image:
     cases = {k + '-' + u: {'kind': k, 'unit': u} for k in KINDS for u in ('deg', 'rad', 'arcmin') if not (k.startswith('circle') and u != 'deg')}
+    # a region given in another celestial frame than the image's: sizes and orientation refer to the region's own frame
+    # ("independently of ... which celestial frame it uses")
+    cases.update({k + '-deg-galactic-on-icrs': {'kind': k, 'unit': 'deg', 'frame': 'galactic'} for k in KINDS})
 
-    def setup(B, kind='circle', unit='deg'):
-        r = region_with_angle_unit(B, kind, unit)
+    def setup(B, kind='circle', unit='deg', frame='icrs'):
+        r = region_with_angle_unit(B, kind, unit, frame)
         wcs, s, nu = B.wcs('w'), B.real('s'), B.real('nu')
         local_model(B, wcs, r.center, s, nu)
         return dict(self=r, wcs=wcs, s=s, nu=nu, kind=kind)
